@@ -669,6 +669,22 @@ def _run(cell, g, fails):
                     bcheck(fails, "qf-cov", cov4_of(out, nn, T), ref["cov4"], tol, "covariance != sum_q Cov_q (x) a_q a_q^T")
                     if is_prior and not delta:
                         bcheck(fails, "prior-cov", cov4_of(out, nn, T), ref["prior_cov4"], tol, "q(u) = p(u) but cov of q(f) != mixed prior")
+            # the Hadamard call mode: one task index per input -> a single-output Gaussian over the n (input, task_i) pairs
+            with fails.guard("qf-task-indices"):
+                if cell["pat"][3] or (s == "IndepMT" and not any(cell["pat"][:3])):
+                    # batched inputs need a (... x N) index tensor; an independent-multitask wrapper around ONE shared latent GP has no
+                    # task dimension to index (the library refuses): decided where the latent GPs carry the task / latent batch dimension
+                    raise util.Skip()
+                ti = torch.arange(nn) % T
+                ot = model(case.X, task_indices=ti)
+                ar = torch.arange(nn)
+                wm = ref["mean"][..., ar, ti]
+                wc = ref["cov4"][..., ar, ti, :, :][..., ar, ti] if False else ref["cov4"][..., ar[:, None], ti[:, None], ar[None, :], ti[None, :]]
+                bcheck(fails, "qf-task-indices", ot.mean, wm, tol, "mean with task_indices != mean of the selected (input, task) pairs")
+                bcheck(fails, "qf-task-indices", ot.variance, wc.diagonal(dim1=-1, dim2=-2), tol, "variance with task_indices")
+                if mode == "eval":
+                    bcheck(fails, "qf-task-indices", ot.covariance_matrix, wc, tol,
+                           "covariance with task_indices != covariance between the selected (input, task) pairs")
         else:
             with fails.guard("qf-var"):
                 if not bcheck(fails, "qf-var", out.variance, ref["cov"].diagonal(dim1=-1, dim2=-2), tol, "variance != diag of the closed form"):
